@@ -23,14 +23,14 @@ Proof.
     - rewrite Z.mul_1_l. rewrite Z.pow2_bits_eqb by lia.
       destruct (Z.eqb_spec 6 i) as [<-|]; [rewrite E6; reflexivity|apply andb_false_r].
     - rewrite Z.mul_0_l, Z.bits_0. destruct (Z.eqb_spec 6 i) as [<-|]; [rewrite E6; reflexivity|apply andb_false_r]. }
-  rewrite E. rewrite <- (Z.testbit_spec' z 6) by lia. change (2 ^ 6) with 64.
+  rewrite E. change ((z / 64) mod 2) with ((z / 2 ^ 6) mod 2). rewrite <- (Z.testbit_spec' z 6) by lia.
   destruct (Z.testbit z 6); reflexivity.
 Qed.
 
 Lemma cont_byte_val x : 0 <= x -> cont_byte x = 128 + x mod 64.
 Proof.
   intros Hx. unfold cont_byte. rewrite land63.
-  change 128 with (2 * 2 ^ 6). apply lor_disjoint; try lia. change (2 ^ 6) with 64. lia.
+  change 128 with (2 * 2 ^ 6). apply lor_disjoint; try lia; change (2 ^ 6) with 64; lia.
 Qed.
 
 Definition lead_ok (mfb : Z) : bool :=
@@ -89,11 +89,13 @@ Lemma dec_step_stop f s c res count : 0 <= c -> (c / 64) mod 2 = 0 ->
   dec_loop (S f) s c res count = Dec c res count.
 Proof. intros Hc Hbit. cbn [dec_loop]. rewrite land64_test by lia. rewrite Hbit. reflexivity. Qed.
 
-(* final combination  res | ((c & 0x7F) << (count*5)) *)
-Lemma final_or res c k : 0 <= res < 2 ^ k -> 0 <= c -> 0 <= k -> (c mod 128) * 2 ^ k < two32 ->
-  Z.lor res (u32 (Z.shiftl (Z.land c 127) k)) = (c mod 128) * 2 ^ k + res.
+(* final combination  res | ((c & 0x7F) << (count*5)):  after count shifts the low count bits of c are
+   zero, so the lead payload y lands exactly above the 6*count bits of res *)
+Lemma final_or res c k y k6 : 0 <= res < 2 ^ k6 -> 0 <= k -> 0 <= k6 -> 0 <= y ->
+  (c mod 128) * 2 ^ k = y * 2 ^ k6 -> y * 2 ^ k6 < two32 ->
+  Z.lor res (u32 (Z.shiftl (Z.land c 127) k)) = y * 2 ^ k6 + res.
 Proof.
-  intros Hr Hc Hk Hb. rewrite land127, Z.shiftl_mul_pow2 by lia.
+  intros Hr Hk Hk6 Hy He Hb. rewrite land127, Z.shiftl_mul_pow2 by lia. rewrite He.
   unfold u32. rewrite Z.mod_small by (split; [apply Z.mul_nonneg_nonneg; [lia|apply Z.pow_nonneg; lia]|exact Hb]).
   rewrite Z.lor_comm. apply lor_disjoint; lia.
 Qed.
@@ -142,4 +144,158 @@ Proof.
   intros H. unfold utf8esc. destruct (Z.ltb_spec x 128); [lia|].
   esc_go. esc_go. esc_go. esc_go. esc_go. change (63 / 2 / 2 / 2 / 2 / 2) with 1.
   rewrite lead_byte_val by (cbn; auto || lia). f_equal.
+Qed.
+
+(* ---- the decoder on an encoded code point followed by anything ---- *)
+Lemma limits_facts :
+  nth 1 NL_UTF8_LIMITS 0 = 128 /\ nth 2 NL_UTF8_LIMITS 0 = 2048 /\ nth 3 NL_UTF8_LIMITS 0 = 65536 /\
+  nth 4 NL_UTF8_LIMITS 0 = 2097152 /\ nth 5 NL_UTF8_LIMITS 0 = 67108864 /\ NL_MAXUTF = 2147483647.
+Proof. vm_compute. repeat split; reflexivity. Qed.
+
+Ltac dec_go v :=
+  rewrite (dec_step_go _ _ _ _ _ v) by (first [reflexivity | unfold two32; lia]).
+Ltac dec_stop :=
+  rewrite dec_step_stop by lia.
+
+Definition lax_decode (s : bytes) : option (Z * Z) := nl_utf8decode s false.
+
+Lemma rt1 x rest : 0 <= x < 128 -> lax_decode ([x] ++ rest) = Some (x, 1).
+Proof.
+  intros H. unfold lax_decode, nl_utf8decode, utf8_decode_gen. cbn [app nth].
+  destruct (Z.ltb_spec x 128); [|lia]. cbn [andb]. reflexivity.
+Qed.
+
+Lemma rt2 x rest : 128 <= x < 2048 -> lax_decode ([192 + x / 64; 128 + x mod 64] ++ rest) = Some (x, 2).
+Proof.
+  intros H. destruct limits_facts as (L1 & L2 & L3 & L4 & L5 & LM).
+  unfold lax_decode, nl_utf8decode, utf8_decode_gen. cbn [app nth].
+  destruct (Z.ltb_spec (192 + x / 64) 128); [lia|].
+  dec_go (x mod 64). dec_stop.
+  change (0 + 1) with 1. change (1 * 5) with 5.
+  rewrite (final_or _ _ 5 (x / 64) 6) by (change (2 ^ 5) with 32; change (2 ^ 6) with 64; unfold two32; lia).
+  change (Z.to_nat 1) with 1%nat. rewrite L1, LM. change (2 ^ 6) with 64.
+  replace (x / 64 * 64 + (0 * 64 + x mod 64)) with x by lia.
+  destruct (Z.ltb_spec 5 1); [lia|]. destruct (Z.ltb_spec 2147483647 x); [lia|]. destruct (Z.ltb_spec x 128); [lia|].
+  reflexivity.
+Qed.
+
+Lemma rt3 x rest : 2048 <= x < 65536 ->
+  lax_decode ([224 + x / 64 / 64; 128 + (x / 64) mod 64; 128 + x mod 64] ++ rest) = Some (x, 3).
+Proof.
+  intros H. destruct limits_facts as (L1 & L2 & L3 & L4 & L5 & LM).
+  unfold lax_decode, nl_utf8decode, utf8_decode_gen. cbn [app nth].
+  destruct (Z.ltb_spec (224 + x / 64 / 64) 128); [lia|].
+  dec_go ((x / 64) mod 64). dec_go (x mod 64). dec_stop.
+  change (0 + 1 + 1) with 2. change (2 * 5) with 10.
+  rewrite (final_or _ _ 10 (x / 64 / 64) 12) by (change (2 ^ 10) with 1024; change (2 ^ 12) with 4096; unfold two32; lia).
+  change (Z.to_nat 2) with 2%nat. rewrite L2, LM. change (2 ^ 12) with 4096.
+  replace (x / 64 / 64 * 4096 + ((0 * 64 + (x / 64) mod 64) * 64 + x mod 64)) with x by lia.
+  destruct (Z.ltb_spec 5 2); [lia|]. destruct (Z.ltb_spec 2147483647 x); [lia|]. destruct (Z.ltb_spec x 2048); [lia|].
+  reflexivity.
+Qed.
+
+Lemma rt4 x rest : 65536 <= x < 2097152 ->
+  lax_decode ([240 + x / 64 / 64 / 64; 128 + (x / 64 / 64) mod 64; 128 + (x / 64) mod 64; 128 + x mod 64] ++ rest) = Some (x, 4).
+Proof.
+  intros H. destruct limits_facts as (L1 & L2 & L3 & L4 & L5 & LM).
+  unfold lax_decode, nl_utf8decode, utf8_decode_gen. cbn [app nth].
+  destruct (Z.ltb_spec (240 + x / 64 / 64 / 64) 128); [lia|].
+  dec_go ((x / 64 / 64) mod 64). dec_go ((x / 64) mod 64). dec_go (x mod 64). dec_stop.
+  change (0 + 1 + 1 + 1) with 3. change (3 * 5) with 15.
+  rewrite (final_or _ _ 15 (x / 64 / 64 / 64) 18) by (change (2 ^ 15) with 32768; change (2 ^ 18) with 262144; unfold two32; lia).
+  change (Z.to_nat 3) with 3%nat. rewrite L3, LM. change (2 ^ 18) with 262144.
+  replace (x / 64 / 64 / 64 * 262144 + (((0 * 64 + (x / 64 / 64) mod 64) * 64 + (x / 64) mod 64) * 64 + x mod 64)) with x by lia.
+  destruct (Z.ltb_spec 5 3); [lia|]. destruct (Z.ltb_spec 2147483647 x); [lia|]. destruct (Z.ltb_spec x 65536); [lia|].
+  reflexivity.
+Qed.
+
+Lemma rt5 x rest : 2097152 <= x < 67108864 ->
+  lax_decode ([248 + x / 64 / 64 / 64 / 64; 128 + (x / 64 / 64 / 64) mod 64; 128 + (x / 64 / 64) mod 64;
+               128 + (x / 64) mod 64; 128 + x mod 64] ++ rest) = Some (x, 5).
+Proof.
+  intros H. destruct limits_facts as (L1 & L2 & L3 & L4 & L5 & LM).
+  unfold lax_decode, nl_utf8decode, utf8_decode_gen. cbn [app nth].
+  destruct (Z.ltb_spec (248 + x / 64 / 64 / 64 / 64) 128); [lia|].
+  dec_go ((x / 64 / 64 / 64) mod 64). dec_go ((x / 64 / 64) mod 64). dec_go ((x / 64) mod 64). dec_go (x mod 64). dec_stop.
+  change (0 + 1 + 1 + 1 + 1) with 4. change (4 * 5) with 20.
+  rewrite (final_or _ _ 20 (x / 64 / 64 / 64 / 64) 24) by (change (2 ^ 20) with 1048576; change (2 ^ 24) with 16777216; unfold two32; lia).
+  change (Z.to_nat 4) with 4%nat. rewrite L4, LM. change (2 ^ 24) with 16777216.
+  replace (x / 64 / 64 / 64 / 64 * 16777216 +
+           ((((0 * 64 + (x / 64 / 64 / 64) mod 64) * 64 + (x / 64 / 64) mod 64) * 64 + (x / 64) mod 64) * 64 + x mod 64)) with x by lia.
+  destruct (Z.ltb_spec 5 4); [lia|]. destruct (Z.ltb_spec 2147483647 x); [lia|]. destruct (Z.ltb_spec x 2097152); [lia|].
+  reflexivity.
+Qed.
+
+Lemma rt6 x rest : 67108864 <= x <= 2147483647 ->
+  lax_decode ([252 + x / 64 / 64 / 64 / 64 / 64; 128 + (x / 64 / 64 / 64 / 64) mod 64; 128 + (x / 64 / 64 / 64) mod 64;
+               128 + (x / 64 / 64) mod 64; 128 + (x / 64) mod 64; 128 + x mod 64] ++ rest) = Some (x, 6).
+Proof.
+  intros H. destruct limits_facts as (L1 & L2 & L3 & L4 & L5 & LM).
+  unfold lax_decode, nl_utf8decode, utf8_decode_gen. cbn [app nth].
+  destruct (Z.ltb_spec (252 + x / 64 / 64 / 64 / 64 / 64) 128); [lia|].
+  dec_go ((x / 64 / 64 / 64 / 64) mod 64). dec_go ((x / 64 / 64 / 64) mod 64). dec_go ((x / 64 / 64) mod 64).
+  dec_go ((x / 64) mod 64). dec_go (x mod 64). dec_stop.
+  change (0 + 1 + 1 + 1 + 1 + 1) with 5. change (5 * 5) with 25.
+  rewrite (final_or _ _ 25 (x / 64 / 64 / 64 / 64 / 64) 30) by (change (2 ^ 25) with 33554432; change (2 ^ 30) with 1073741824; unfold two32; lia).
+  change (Z.to_nat 5) with 5%nat. rewrite L5, LM. change (2 ^ 30) with 1073741824.
+  replace (x / 64 / 64 / 64 / 64 / 64 * 1073741824 +
+           (((((0 * 64 + (x / 64 / 64 / 64 / 64) mod 64) * 64 + (x / 64 / 64 / 64) mod 64) * 64 + (x / 64 / 64) mod 64) * 64 +
+             (x / 64) mod 64) * 64 + x mod 64)) with x by lia.
+  destruct (Z.ltb_spec 5 5); [lia|]. destruct (Z.ltb_spec 2147483647 x); [lia|]. destruct (Z.ltb_spec x 67108864); [lia|].
+  reflexivity.
+Qed.
+
+(* ---- the round trip: every code point of the original UTF-8 range ---- *)
+Theorem utf8_roundtrip x : 0 <= x <= 2147483647 ->
+  exists bs, utf8esc x = Some bs /\ 1 <= slen bs <= 6 /\
+             forall rest, nl_utf8decode (bs ++ rest) false = Some (x, slen bs).
+Proof.
+  intros H.
+  destruct (Z.lt_ge_cases x 128); [eexists; split; [apply esc1; lia|split; [cbv; intuition congruence|intros; apply rt1; lia]]|].
+  destruct (Z.lt_ge_cases x 2048); [eexists; split; [apply esc2; lia|split; [cbv; intuition congruence|intros; apply rt2; lia]]|].
+  destruct (Z.lt_ge_cases x 65536); [eexists; split; [apply esc3; lia|split; [cbv; intuition congruence|intros; apply rt3; lia]]|].
+  destruct (Z.lt_ge_cases x 2097152); [eexists; split; [apply esc4; lia|split; [cbv; intuition congruence|intros; apply rt4; lia]]|].
+  destruct (Z.lt_ge_cases x 67108864); [eexists; split; [apply esc5; lia|split; [cbv; intuition congruence|intros; apply rt5; lia]]|].
+  eexists; split; [apply esc6; lia|split; [cbv; intuition congruence|intros; apply rt6; lia]].
+Qed.
+
+(* strict mode rejects exactly the surrogates and the values above 0x10FFFF among what lax accepts *)
+Lemma strict_decode_spec s :
+  nl_utf8decode s true =
+  match nl_utf8decode s false with
+  | Some (code, n) => if (NL_MAXUNICODE <? code) || ((NL_SURR_LO <=? code) && (code <=? NL_SURR_HI)) then None else Some (code, n)
+  | None => None
+  end.
+Proof.
+  unfold nl_utf8decode, utf8_decode_gen. cbn zeta.
+  destruct (if nth 0 s 0 <? 128 then _ else _) as [[code count]|]; [|reflexivity].
+  cbn [andb]. destruct ((NL_MAXUNICODE <? code) || (NL_SURR_LO <=? code) && (code <=? NL_SURR_HI)); reflexivity.
+Qed.
+
+(* the port's decoder is Lua's decoder: the scraped tables and limits coincide *)
+Lemma decode_eq_lua s strict : nl_utf8decode s strict = lua_utf8decode s strict.
+Proof.
+  (* holds by computation as long as the constants and tables scraped from lib/utf8.nelua equal those
+     scraped from lutf8lib.c *)
+  unfold nl_utf8decode, lua_utf8decode. reflexivity.
+Qed.
+
+(* overlong forms are rejected: the 2-byte spelling of '/' and the 3-byte spelling of 0x7F *)
+Example overlong_rejected : nl_utf8decode [192; 175] false = None /\ nl_utf8decode [224; 129; 191] false = None.
+Proof. vm_compute. split; reflexivity. Qed.
+
+(* utf8.char: the port's early cast makes it accept arguments that Lua rejects *)
+Definition utf8char_eq_lua : Prop :=
+  forall v, in_i64 v -> match lua_utf8char v with LVal b => nl_utf8char v = Val b | LErr => forall b, nl_utf8char v <> Val b end.
+Lemma utf8char_eq_lua_refuted : ~ utf8char_eq_lua.
+Proof.
+  intros H. specialize (H 4294967361 ltac:(vm_compute; intuition congruence)).
+  vm_compute in H. apply (H [65]). reflexivity.
+Qed.
+Lemma utf8char_eq_lua_partial v b : 0 <= v < two32 -> lua_utf8char v = LVal b -> nl_utf8char v = Val b.
+Proof.
+  intros Hv. unfold lua_utf8char, nl_utf8char.
+  rewrite (u64_small v) by (unfold two32, two64 in *; lia). rewrite (Z.mod_small v two32) by lia.
+  change NL_UTF8ESC_MAX with LUA_MAXUTF.
+  destruct (LUA_MAXUTF <? v); [discriminate|]. destruct (utf8esc v); [|discriminate]. intros [= <-]. reflexivity.
 Qed.
